@@ -64,6 +64,7 @@ selfc = selfc;
 wr := () -> int { c0 = 100; return 1 };
 it := [10, 20, 30, 40, 50, 60]~;
 it2 := [1, 2]~;
+pipe := [1, 2, 3, 4, 5, 6]~ ? (x: int) -> bool { return x > 1 } @ (x: int) -> int { return x * 2 };
 rdint := (x: mut int) -> int { return *x };
 addto := (x: mut int, k: int) -> int { return x += k };
 ps := mut struct{x: int, y: int} struct{x := 1, y := 2};
@@ -323,6 +324,7 @@ impl Op {
             OpKind::SameCell(c2, p2) => format!("{p} == {}", path_src(*c2, *p2)),
             OpKind::BumpViaRhs => format!("{p} += wr()"),
             OpKind::Pull if self.path == 1 => "it2()".to_string(),
+            OpKind::Pull if self.path == 2 => "pipe()".to_string(),
             OpKind::Pull => "it()".to_string(),
             OpKind::MkFresh(v) => match v % 12 {
                 0 => "{ x := mk(); y := mk(); x += 1; (*x, *y, x == y) }".to_string(),
@@ -589,14 +591,18 @@ pub struct Model {
     pub iter_pos: usize,
     /// position of the two-element iterator `it2` (pulls with path 1)
     pub iter2_pos: usize,
+    pub pipe_pos: usize,
 }
 
 pub const ITER_ITEMS: [i64; 6] = [10, 20, 30, 40, 50, 60];
 pub const ITER2_ITEMS: [i64; 2] = [1, 2];
+/// what the shared pipeline `pipe` (a filter and a map over a 6-element iterator) delivers
+pub const PIPE_ITEMS: [i64; 5] = [4, 6, 8, 10, 12];
+pub const PIPE_SOURCE_LEN: usize = 6;
 
 impl Model {
     pub fn new() -> Self {
-        Model { heap: init_heap(), iter_pos: 0, iter2_pos: 0 }
+        Model { heap: init_heap(), iter_pos: 0, iter2_pos: 0, pipe_pos: 0 }
     }
 
     /// the heap index an (cell, path) pair denotes right now
@@ -655,6 +661,15 @@ impl Model {
                     Val::Arr(vec![Val::Bool(false), Val::Int(0)])
                 };
                 self.iter2_pos += 1;
+                Expect::Value(r)
+            }
+            OpKind::Pull if op.path == 2 => {
+                let r = if self.pipe_pos < PIPE_ITEMS.len() {
+                    Val::Arr(vec![Val::Bool(true), Val::Int(PIPE_ITEMS[self.pipe_pos])])
+                } else {
+                    Val::Arr(vec![Val::Bool(false), Val::Int(0)])
+                };
+                self.pipe_pos += 1;
                 Expect::Value(r)
             }
             OpKind::Pull => {
@@ -755,10 +770,10 @@ pub fn gen_op(rng: &mut Rng, cfg: &GenCfg, unique: &mut i64) -> Op {
         let roll = rng.below(100);
         if cfg.pull_heavy {
             // every thread hammers the two-element iterator
-            return Op { cell: 0, path: 1, kind: OpKind::Pull };
+            return Op { cell: 0, path: if rng.chance(1, 2) { 1 } else { 2 }, kind: OpKind::Pull };
         }
         if roll < 4 && cfg.allow_pull {
-            return Op { cell: 0, path: if rng.chance(1, 3) { 1 } else { 0 }, kind: OpKind::Pull };
+            return Op { cell: 0, path: [0, 0, 1, 2, 2][rng.below(5)], kind: OpKind::Pull };
         }
         if roll < 9 && cfg.allow_self {
             return Op {
